@@ -21,6 +21,7 @@ def _knobs(rng, *, conc=True):
         "relpath": rng.choice([None, None, None, None, "", "./"]),
         "pct_depth": rng.choice([0, 0, 0, 0, 0, 1, 2, 3]) if conc else 0,
         "locale": rng.choice([None, None, None, None, None, "de_DE"]),
+        "mtime_granularity": rng.choice([None, None, 1.0, 2.0]),
     }
 
 
